@@ -462,6 +462,12 @@ MUTANTS += [
     {"name": "abund-of-other-list", "file": PHYS, "old": "zip(network.species, specabund)", "new": "zip(network.species | sort(attribute='name'), specabund)", "rules": ["R1"]},
     {"name": "term-count-of-element-species", "file": PHYS, "old": '{{ "{:.1f}".format(natom) ~ "*" ~ ab ~ " + "}}', "new": '{{ "{:.1f}*{} + ".format(elem.element_count.get(elemname), ab) }}', "rules": ["R1"]},
     {"name": "loop-filter-drops-ice", "file": PHYS, "old": "zip(network.species, specabund) -%}", "new": "zip(network.species, specabund) if not spec.is_surface -%}", "rules": ["R1"]},
+    {"name": "electron-names-constant-misses-E", "edits": [
+        {"file": SPECIES, "old": "    _replacement = {}\n", "new": "    _replacement = {}\n    _electron_names = (\"E-\",)\n", "count": 1},
+        {"file": SPECIES, "old": 'return self.name.upper() in ["E", "E-"]', "new": "return self.name.upper() in self._electron_names"}], "rules": ["R3"]},
+    {"name": "eq-grain-helper-without-charge", "edits": [
+        {"file": SPECIES, "old": "                or (\n                    self.is_grain\n                    and o.is_grain\n                    and self.grain_group == o.grain_group\n                    and self.charge == o.charge\n                )\n", "new": "                or self._same_grain(o)\n"},
+        {"file": SPECIES, "old": "    def __hash__(self) -> int:\n", "new": "    def _same_grain(self, o):\n        return self.is_grain and o.is_grain and self.grain_group == o.grain_group\n\n    def __hash__(self) -> int:\n"}], "rules": ["R2"]},
     {"name": "macro-header-last-key", "file": MACROS, "old": "#define IDX_ELEM_{{ spec.element_count.keys() | first }} {{ loop.index0 }}", "new": "{% set sym = spec.element_count | last %}\n#define IDX_ELEM_{{ sym }} {{ loop.index0 }}", "rules": ["R1"]},
     {"name": "element-count-dict-update", "file": SPECIES, "old": "        if element in self.element_count.keys():\n            self.element_count[element] += count\n        else:\n            self.element_count[element] = count\n", "new": "        self.element_count.update({element: count})\n", "rules": ["R6"]},
     {"name": "element-count-overwrite", "file": SPECIES, "old": "        if element in self.element_count.keys():\n            self.element_count[element] += count\n        else:\n            self.element_count[element] = count\n", "new": "        self.element_count[element] = count\n", "rules": ["R6"]},
@@ -487,5 +493,11 @@ BENIGN = [
         {"file": PHYS, "old": "zip(network.species, specabund) -%}", "new": "zip(network.species, specabund) if spec.element_count.get(elemname) -%}"},
         {"file": PHYS, "old": "               {% if natom -%}\n", "new": ""},
         {"file": PHYS, "old": "               {%- endif %}\n", "new": ""}]},
+    {"name": "electron-names-class-constant", "edits": [
+        {"file": SPECIES, "old": "    _replacement = {}\n", "new": "    _replacement = {}\n    _electron_names = (\"E\", \"E-\")\n", "count": 1},
+        {"file": SPECIES, "old": 'return self.name.upper() in ["E", "E-"]', "new": "return self.name.upper() in self._electron_names"}]},
+    {"name": "eq-grain-helper-predicate", "edits": [
+        {"file": SPECIES, "old": "                or (\n                    self.is_grain\n                    and o.is_grain\n                    and self.grain_group == o.grain_group\n                    and self.charge == o.charge\n                )\n", "new": "                or self._same_grain(o)\n"},
+        {"file": SPECIES, "old": "    def __hash__(self) -> int:\n", "new": "    def _same_grain(self, o):\n        return self.is_grain and o.is_grain and self.grain_group == o.grain_group and self.charge == o.charge\n\n    def __hash__(self) -> int:\n"}]},
     {"name": "eq-disjuncts-reordered", "file": SPECIES, "old": "                (self.is_electron and o.is_electron)\n                or (", "new": "                self.name == o.name\n                or (self.is_electron and o.is_electron)\n                or ("},
 ]
